@@ -81,7 +81,8 @@ def run_case(case, ctx):
         ctx.violation("shape", f"generate_hilbert_space shape {tuple(sp.shape)}")
         return
     rho_ref, S = R.density_matrix(am, ph, nv)
-    tau = TAU * (2 * nh + na) + 1e-11
+    tau = 2 * gen.tau_sp(nv, am, ph) + 1e-11
+    ctx.seen("softplus_budget_in_force", tau > 1e-11)
     wit = {"am": gen.small_params(am), "ph": gen.small_params(ph)}
 
     use_san = case["rep"] % 3 == 0
